@@ -56,6 +56,14 @@ def run(ctx, log):
         if o != e:
             ctx.violate("parsing the printed form of a tree did not give back that tree", source=s, observed=o[:400], expected=e[:400])
     log("%d printed texts parsed by the implementation" % len(texts))
+    # text-first: hand-written texts around the parser's quirks (else-if chains followed by operators and separators, prefix
+    # operators, op-assignment shapes, calls vs separate statements) - implementation and Parser.v must read the same tree
+    quirk = ["als a {1} anders als b {2} anders {3} + 10", "als a {1} anders als b {2} + 3", "als a {1} anders als b {2}; -3", "als a {1} anders als b {2}; 3", "als a {1} anders als b {2} 3",
+             "stel x = als a {1} anders als b {2} anders {3} + 10; x", "[als a {1} anders als b {2} anders {3} * 2, 4]", "f(als a {1} anders als b {2} anders {3} - 1)", "als a {1} anders als b {2} anders als c {3} anders {4} == 4",
+             "als a {1} anders { als b {2} anders {3} } + 10", "(als a {1} anders als b {2} anders {3}) + 10", "als a {1} anders als b {2} anders {3}\n+ 10", "als a {1} anders als b {2} anders {3} [0]", "als a {1} anders als b {2} anders {3} (4)",
+             "-a * b", "-a + b", "!a == b", "- - a", "!-a", "-a[0]", "-f(1)", "a - -b", "a == = 1", "a < = 2", "a + = b = 1", "a += b = 1", "a += b += 1", "a = b = 1", "a ; (b)", "a (b)", "a\n(b)", "[a, [b]]", "[a [b]]", "[1 -2]", "[1, -2]",
+             "stel f = functie(x) { x } (1)", "functie(x) { x }(1)(2)", "a[0][1]", "f(1)(2)", "f(1)[0]", "\"s\"[0]", "[1][0]", "(a)(1)", "([1])[0]", "a.b", "1 . 2", "zolang a { } + 1", "{ 1 } + 2", "{ 1 } - 2", "{ } [1]", "antwoord 1 + 2", "stel a = 1 stel b = 2", "stop volgende", "als a {1} anders {2} anders {3}"]
+    front.front_corr(ctx, quirk, ("parse",), log, label="quirk-texts")
     # (2) model correspondence on a sample
     idx = list(range(len(texts)))
     rng.shuffle(idx)
